@@ -12,6 +12,14 @@ def obls(P):
     return o
 
 
+QUEUE_PROGRAMS = ['uo', 'ou', 'ur', 'ru', 'oo', 'or', 'ro', 'rr', 'uf', 'fo', 'uu']
+
+
+def queue_obls(P):
+    from ..conccheck import ob_queue
+    return ob_queue(P) + [{'name': 'reach: both threads complete', 'kind': 'witness', 'goal': P.live}]
+
+
 def run(tier, seed):
     run = Run('C08', tier, seed)
     progs = PROGRAMS_QUICK if tier == 'quick' else PROGRAMS_THOROUGH
@@ -23,7 +31,12 @@ def run(tier, seed):
     run.assumptions = CONC_ASSUMPTIONS + [
         '"reachable by matching" is decided as the representation invariant: every resting order is covered by an available ticket; that a draining match then consumes it is C06 (termination, exhaustion) and C02 (maker = resting order)',
         'hand-out exactly once is decided through per-order conservation (executed + cancelled + resting <= supplied)',
-        'the bare OrderQueue programs of the quantifier are covered through the level operations that call push/pop/remove/find; a queue-only harness is not part of this check']
+        'bare OrderQueue programs: two threads x one call of push / pop / remove / find (u o r f) on an arbitrary queue state (<= N entries, <= K tickets incl. stale and duplicate ones); hand-out exactly once is counted over the results of both threads and the final map']
     known, fixed = load_known('C08')
     run_conc(run, progs, 'emir.checks.c08.obls', timeout=300, known_keys=[f['key'] for f in known], base=b)
+    # the exported order queue on its own: concurrent push / pop / remove / find
+    if not os.environ.get('VERIF_CUBES'):
+        qb = dict(b, queue_only=True)
+        run.bounds['queue_programs'] = QUEUE_PROGRAMS
+        run_conc(run, QUEUE_PROGRAMS, 'emir.checks.c08.queue_obls', timeout=300, base=qb)
     return run.finish(explanation='at quiescence of every well-nested two-thread schedule every resting order must still be covered by a ticket and the aggregates must describe what rests')
